@@ -43,7 +43,7 @@ def node_case(draw):
     n = draw(st.integers(1, 3))
     classes = []
     for i in range(n):
-        cs = draw(classgen.class_spec(max_params=4, max_cmds=2, depth=2, safe_const=False))
+        cs = draw(classgen.class_spec(max_params=4, max_cmds=2, depth=2, safe_const=False, ro_variants=True))
         for p in cs['params']:
             p.pop('limits', None)
             p.pop('check', None)
@@ -75,7 +75,7 @@ def check_node(ctx, case, nprobes=45):
     classes = [classgen.build_class(cs, f'G{i}') for i, cs in enumerate(case['classes'])]
     cfg = {}
     for i, (c, cs) in enumerate(zip(classes, case['classes'])):
-        cfg[f'm{i}'] = {'cls': c, 'description': f'module {i}'}
+        cfg[f'm{i}'] = dict({'cls': c, 'description': f'module {i}'}, **classgen.cfg_overrides(cs))
         if not cs.get('export', True):
             cfg[f'm{i}']['export'] = False
     key = json.dumps(case['classes'], sort_keys=True, default=repr)
@@ -200,7 +200,11 @@ def norm_optional(info):
 
 def check_param(ctx, case, kit, conn, mname, p, wire, desc, rec, nprobes):
     from frappy.datatypes import get_datatype
-    T = p['T']
+    T = classgen.effective_T(p)     # class datatype with the configured properties applied
+    if p.get('cfgT'):
+        ctx.label('param:configured-limits')
+    if p.get('ro_how'):
+        ctx.label(f'param:readonly:{p["ro_how"]}')
     spec = f'{mname}:{wire}'
     sub = {'kind': 'node', 'classes': case['classes'], 'focus': spec}
     try:
@@ -209,7 +213,7 @@ def check_param(ctx, case, kit, conn, mname, p, wire, desc, rec, nprobes):
         ctx.finding(f'describe:datainfo-not-rebuildable:{T["k"]}', sub, repr(e))
         return
     if desc['datainfo'] != json.loads(json.dumps(specs.build(T).export_datatype())):
-        ctx.finding('describe:datainfo-differs-from-class', sub, repr(desc['datainfo']))
+        ctx.finding('describe:datainfo-differs-from-class' + ('+cfg' if p.get('cfgT') else ''), sub, repr(desc['datainfo']))
     readonly = bool(p.get('readonly') or p.get('constant'))
     if bool(desc.get('readonly')) != readonly:
         ctx.finding('describe:readonly-flag', sub, repr(desc))
